@@ -34,6 +34,8 @@ def ensure_rally_home():
 
 
 ETERNAL = -1
+TIMED = -2
+TIME_PERIOD = 2.0  # seconds (virtual) of a time-period based task
 
 
 # ---------------------------------------------------------------------------------------------------
@@ -169,6 +171,8 @@ def build_track(scn):
             kw = dict(name="t%d" % t["id"], operation=op, clients=t["clients"], completes_parent=bool(t["cp"]), any_completes_parent=bool(t["acp"]))
             if t["reqs"] == ETERNAL:
                 kw.update(warmup_time_period=0)
+            elif t["reqs"] == TIMED:
+                kw.update(warmup_time_period=0, time_period=TIME_PERIOD)
             else:
                 kw.update(warmup_iterations=0, iterations=t["reqs"])
             task = track.Task(**kw)
@@ -253,6 +257,8 @@ class RaceWorld:
         self.fault = None
         self.fault_fired = False
         self.keepalive = []
+        self.cell_times = {}  # (client, task id) -> [virtual start, virtual end] of the executor coroutine
+        self.timed_paths = {"/_t/%d" % t["id"] for e in scn["sched"] for t in e["tasks"] if t["reqs"] == TIMED}
         self.cell_override = {}  # client -> "failed" | "aband": coroutines that died with a failing executor / a dead worker
         self.param_fault = None  # (task id, client_index_in_task) whose parameter source raises on the next call
         self._patches = []
@@ -271,10 +277,12 @@ class RaceWorld:
         async def observed_call(self_, *a, **k):
             tid = int(self_.task.name[1:])
             world.exec_obs["started"].append((self_.client_id, tid))
+            world.cell_times[(self_.client_id, tid)] = [world.clock.now, None]
             try:
                 return await orig_call(self_, *a, **k)
             finally:
                 world.exec_obs["finished"].append((self_.client_id, tid))
+                world.cell_times[(self_.client_id, tid)][1] = world.clock.now
 
         self._patch(driver.AsyncExecutor, "__call__", observed_call)
 
@@ -427,6 +435,9 @@ class RaceWorld:
             req = self.pending.pop(c)
             if service_time is None:
                 service_time = self.rnd.choice([0.0, 0.25, 0.5, 1.0])
+                if req["path"] in self.timed_paths:
+                    # requests of a time-period based task take time, so that the period is over after a few of them
+                    service_time = max(service_time, 0.5)
             self.clock.advance_to(self.clock.now + service_time)
             wn = self.worker_of_client(c)
             run = self.exec_runs[wn]
